@@ -1,4 +1,5 @@
 import Gzx.Driver.C01
+import Gzx.Driver.C01Multi
 import Gzx.Driver.C02
 import Gzx.Driver.C03
 import Gzx.Driver.C03Row39
@@ -32,6 +33,7 @@ namespace Gzx.Driver
 def dispatch (line : String) : String :=
   match line.splitOn " " with
   | "c01" :: rest => C01.handle rest
+  | "c01multi" :: rest => C01Multi.handle rest
   | "c02" :: rest => C02.handle rest
   | "c03" :: rest => C03.handle rest
   | "row39" :: rest => C03Row39.handle rest
